@@ -81,3 +81,40 @@ type EmbValCase struct {
 	Lower int `json:"name"`
 	X     int `json:"other"`
 }
+
+// Embedded pointers to structs that are larger than, or laid out differently from, the struct
+// that embeds them: the decoder allocates the embedded object when a promoted member arrives.
+type EPBig struct {
+	B1, B2, B3, B4, B5, B6, B7, B8 int64
+	S                              string
+	P                              *int64
+	L                              []int32
+}
+
+type EPOutSmall struct{ *EPBig }
+
+type EPInnerP struct {
+	PS *string
+	Q  int64
+	R  *[]int
+}
+
+// same size as EPInnerP, scalars where it has pointers
+type EPOutScalar struct {
+	N int64
+	*EPInnerP
+	M int64
+}
+
+type EPOutMix struct {
+	K0 [16]byte `json:"-"`
+	*EPBig
+	K1 [16]byte `json:"-"`
+	A  int8
+	*EPInnerP
+}
+
+type EPDeep struct {
+	*EPOutSmall
+	Z int8
+}
